@@ -6,7 +6,7 @@ CONSTANTS
   Delays = {TRUE, FALSE}
   Lates = {TRUE, FALSE}
   Threads = {1}
-  MaxAdds = 5
+  MaxAdds = 6
   MaxEnds = 3
   AtomicAdd = TRUE
   StaleTimers = TRUE
